@@ -268,6 +268,22 @@ func sizeClass(t *rapid.T, label string) int {
 	return 0
 }
 
+// oneIn reports true for about 0.7/n of the cases. rapid's integer generators favour small values (IntRange(0,n-1)==0
+// happens in roughly one case in ten whatever n is), which suits the cheap edge classes but not the expensive ones
+// (genome-sized references); for those the draw is hashed so that small draws, and the shrunk case, fall outside the class.
+func oneIn(t *rapid.T, label string, n int) bool {
+	v := rapid.Uint64().Draw(t, label)
+	if v < 1<<20 {
+		return false
+	}
+	v ^= v >> 30
+	v *= 0xbf58476d1ce4e5b9
+	v ^= v >> 27
+	v *= 0x94d049bb133111eb
+	v ^= v >> 31
+	return v%uint64(n) == 0
+}
+
 func lower(b byte) byte {
 	if b >= 'A' && b <= 'Z' {
 		return b + 32
